@@ -63,7 +63,7 @@ def to_smt2(pc, goal, want_model=False):
     return "(set-logic ALL)\n" + txt
 
 
-def run_solver(name, path, budget, want_model=False):
+def solver_cmd(name, budget, want_model=False):
     cmd = list(SOLVERS[name])
     if name.startswith("z3"):
         cmd += [f"rlimit={budget['rlimit_z3']}", f"-T:{budget['wall']}"]
@@ -73,6 +73,22 @@ def run_solver(name, path, budget, want_model=False):
         cmd += [f"--rlimit={budget['rlimit_cvc5']}", f"--tlimit={budget['wall'] * 1000}"]
         if want_model:
             cmd += ["--produce-models"]
+    return cmd
+
+
+def classify(out):
+    first = out.split("\n", 1)[0].strip() if out else ""
+    if first in ("sat", "unsat", "unknown"):
+        return first
+    if "timeout" in out:
+        return "unknown"
+    if out.startswith("(error") or "error" in first:
+        return "error"
+    return "unknown"
+
+
+def run_solver(name, path, budget, want_model=False):
+    cmd = solver_cmd(name, budget, want_model)
     cmd.append(path)
     t0 = time.time()
     try:
@@ -141,25 +157,61 @@ def check_text(txt, budget, order=ORDER, all_solvers=False, workdir=None):
 
 
 def _check_text(txt, budget, order, all_solvers, d, h):
+    """portfolio: the first solver alone with a short wall-clock cap (it closes almost every goal in milliseconds); if it gives no
+    definitive answer the remaining solvers run concurrently and the first definitive answer decides.  With all_solvers (thorough tier)
+    every solver is run to its full budget and the answers are compared (sat vs unsat = conflict)."""
     path = os.path.join(d, f"pyvc_{os.getpid()}_{h}_{next(_seq)}.smt2")
     with open(path, "w") as fh:
         fh.write(txt)
     res = {"status": "unknown", "backend": None, "time": 0.0, "outputs": {}, "answers": {}}
+
+    def note(name, st, dt, out):
+        res["time"] += dt
+        res["answers"][name] = st
+        res["outputs"][name] = out[:2000]
+        if st in ("sat", "unsat"):
+            if res["status"] in ("sat", "unsat") and res["status"] != st:
+                res["status"] = "conflict"
+            elif res["status"] == "unknown":
+                res["status"] = st
+                res["backend"] = name
     try:
-        for name in order:
-            st, dt, out = run_solver(name, path, budget)
-            res["time"] += dt
-            res["answers"][name] = st
-            res["outputs"][name] = out[:2000]
-            if st in ("sat", "unsat"):
-                if res["status"] in ("sat", "unsat") and res["status"] != st:
-                    res["status"] = "conflict"
-                    return res
-                if res["status"] == "unknown":
-                    res["status"] = st
-                    res["backend"] = name
-                if not all_solvers:
-                    return res
+        if all_solvers:
+            for name in order:
+                note(name, *run_solver(name, path, budget))
+                if res["status"] == "conflict":
+                    break
+            return res
+        first = dict(budget)
+        first["wall"] = min(budget["wall"], int(os.environ.get("VERIF_FIRST_WALL", "8")))
+        note(order[0], *run_solver(order[0], path, first))
+        if res["status"] in ("sat", "unsat"):
+            return res
+        rest = list(order[1:]) + [order[0]]  # the first solver again with its full budget, alongside the others
+        procs = {}
+        t0 = time.time()
+        for name in rest:
+            procs[name] = subprocess.Popen(solver_cmd(name, budget) + [path], stdout=subprocess.PIPE, stderr=subprocess.DEVNULL, text=True)
+        deadline = t0 + budget["wall"] + 10
+        pending = dict(procs)
+        while pending and time.time() < deadline:
+            for name, p in list(pending.items()):
+                if p.poll() is not None:
+                    out = (p.stdout.read() or "").strip()
+                    st = classify(out)
+                    note(name, st, time.time() - t0, out)
+                    del pending[name]
+                    if st in ("sat", "unsat"):
+                        for q in pending.values():
+                            q.kill()
+                        for q in pending.values():
+                            q.wait()
+                        return res
+            time.sleep(0.02)
+        for name, p in pending.items():
+            p.kill()
+            p.wait()
+            note(name, "unknown", time.time() - t0, "timeout")
     finally:
         try:
             os.unlink(path)
